@@ -39,6 +39,7 @@ for (const line of lines) {
   } catch (e) {
     r = { err: String(e) };
   }
-  out.push(JSON.stringify(r));
+  // JSON.stringify prints -0 as 0: carry it across as a marker
+  out.push(JSON.stringify(r, (k, v) => (Object.is(v, -0) ? "@@negzero" : v)));
 }
 console.log(out.join("\n"));
